@@ -42,6 +42,8 @@ func tfAtom(name string) model3d.Transform {
 		return &model3d.Matrix3Transform{Matrix: cols([3][3]float64{{2, 1, 0}, {0, 1, 0}, {0, 0, 1}})}
 	case "Mu":
 		return &model3d.Matrix3Transform{Matrix: cols([3][3]float64{{2, 1, 0}, {1, 1, 0}, {0, 0, 1}})}
+	case "Ma":
+		return &model3d.Matrix3Transform{Matrix: cols([3][3]float64{{1, 1, 1}, {0, 1, 0}, {0, 0, 1}})}
 	case "Rz":
 		return model3d.Rotation(model3d.Z(1), math.Pi/2)
 	case "Rx2":
